@@ -1063,7 +1063,7 @@ check_c19(BatchCfg &cfg)
         std::vector<TrItem> items;
         Rng r(cfg.seed * 1000003 + 19);
         const int cfgs[2] = { 1, 5 }; // SSE type 1, AVX2 type 1: the variants named by the property
-        const int pairs = th ? 6 : 1;
+        const int pairs = th ? 18 : 1;
         for (int ci = 0; ci < 2; ci++)
                 for (int alg = 0; alg < 7; alg++)
                         for (int entry = 0; entry < 2; entry++) {
